@@ -37,7 +37,7 @@ export function* generate({ tier, seed }) {
   // 2. all ordered pairs of atoms as a union (exhaustive depth-1 unions) — several props per module
   const pairs = [];
   for (const a of ATOMS) for (const b of ATOMS) if (a !== b) pairs.push([a, b]);
-  const pairList = tier === 'quick' ? rng.shuffle(pairs).slice(0, 800) : pairs;
+  const pairList = pairs;
   for (let i = 0; i < pairList.length; i += 8) {
     const props = pairList.slice(i, i + 8).map(([a0, b0]) => {
       const a = atomNode(a0), b = atomNode(b0);
@@ -46,7 +46,7 @@ export function* generate({ tier, seed }) {
     yield emit(props, [], 'before', `union2|${i}`);
   }
   // 3. random trees of depth <= 4
-  const nRand = tier === 'quick' ? 2500 : 60000;
+  const nRand = tier === 'quick' ? 12000 : 400000;
   for (let i = 0; i < nRand; i++) {
     resetUid();
     const out = { decls: [] };
@@ -61,7 +61,7 @@ export function* generate({ tier, seed }) {
 }
 
 function* shadowModules(rng, tier) {
-  const n = tier === 'quick' ? 400 : 6000;
+  const n = tier === 'quick' ? 2500 : 40000;
   for (let i = 0; i < n; i++) {
     const a = atomNode(rng.pick(ATOMS)), b = atomNode(rng.pick(ATOMS));
     if (JSON.stringify(a.ctors) === JSON.stringify(b.ctors)) continue;
@@ -176,7 +176,7 @@ export async function check(group, records) {
 
 export function meta({ tier }) {
   return {
-    rule: `Type expressions over a table of ${ATOMS.length} atoms (keywords, literal types incl. template/bigint/boolean, function and constructor types, arrays/tuples/readonly arrays, object-like types, built-in classes, any/unknown/null, and every utility wrapper the statement names), each with 1-4 sample inhabitants: every atom alone (required and optional), ${tier === 'quick' ? '800 sampled' : 'all'} ordered pairs of atoms as unions, and ${tier === 'quick' ? 2500 : 60000} random trees of depth <= 4 built by union, alias, alias of union, parentheses, tuple / tuple[number] / array / property / interface indexing and NonNullable; declarations before or after the call. Oracles: (primary) a port of Vue's validateProp accepts every sample inhabitant of the declared type for the emitted {type, required}; for types containing any/unknown also arbitrary probe values; (secondary) the emitted constructor set equals the union of the parts' constructors, Boolean/String in declaration order.`,
+    rule: `Type expressions over a table of ${ATOMS.length} atoms (keywords, literal types incl. template/bigint/boolean, function and constructor types, arrays/tuples/readonly arrays, object-like types, built-in classes, any/unknown/null, and every utility wrapper the statement names), each with 1-4 sample inhabitants: every atom alone (required and optional), all ordered pairs of atoms as unions, and ${tier === 'quick' ? 12000 : 400000} random trees of depth <= 4 built by union, alias, alias of union, parentheses, tuple / tuple[number] / array / property / interface indexing and NonNullable; declarations before or after the call. Oracles: (primary) a port of Vue's validateProp accepts every sample inhabitant of the declared type for the emitted {type, required}; for types containing any/unknown also arbitrary probe values; (secondary) the emitted constructor set equals the union of the parts' constructors, Boolean/String in declaration order.`,
     assumptions: ['undefined/void/never carry no inhabitant obligation', 'keyof, typeof (other than inside the listed atoms), conditional and mapped types, generic aliases are outside the quantifier'],
   };
 }
